@@ -122,6 +122,10 @@ fn main() {
         }
         let (name, d) = &fam[i];
         let light = d.n == 3 && !th;
+        if i % 200 == 0 {
+            let mv = pd_moves(d, true);
+            run.sample(json!({"from": d.pd(), "diagram": name, "moves": mv.iter().take(3).map(|(m, d2)| json!({"move": m, "to": d2.pd()})).collect::<Vec<_>>()}));
+        }
         for (mv, d2) in pd_moves(d, true) {
             cx.all_rings_edge(name, d, &mv, &d2, light);
             if th && d.n <= 2 {
